@@ -6,6 +6,22 @@ subset raises GenError (the run then uses the committed baseline and the tie res
 correspondence check)."""
 import ast
 from common import *
+import failclosed
+
+# every method / function read below must be the one definition bound to its name, undecorated (remove_path_on_error: exactly
+# contextlib.contextmanager), the classes plain, the module names the real modules (tools/gen/failclosed.py)
+_S, _F, _ANY = 'save_and_reraise_exception.', 'exception_filter.', failclosed.ANY
+FAILCLOSED = {'generate': [
+    {'src': 'oslo_utils/excutils.py', 'mod': 'oslo_utils.excutils',
+     'classes': {'save_and_reraise_exception': {'bases': []}, 'exception_filter': {'bases': []}},
+     'functions': {_S + '__init__': {'defaults': {'reraise': _ANY, 'logger': 'None'}}, _S + 'force_reraise': {'defaults': {}},
+                   _S + 'capture': {'defaults': {'check': _ANY}}, _S + '__enter__': {'defaults': {}}, _S + '__exit__': {'defaults': {}},
+                   _F + '__init__': {'defaults': {}}, _F + '__get__': {'defaults': {}}, _F + '__enter__': {'defaults': {}},
+                   _F + '__exit__': {'defaults': {}}, _F + '__call__': {'defaults': {}}, 'raise_with_cause': {'defaults': {}}},
+     'imports': {'sys': 'sys', 'traceback': 'traceback', 'functools': 'functools', 'logging': 'logging'}},
+    {'src': 'oslo_utils/fileutils.py', 'mod': 'oslo_utils.fileutils',
+     'functions': {'remove_path_on_error': {'decorators': ['contextlib.contextmanager'], 'defaults': {'remove': 'delete_if_exists'}}},
+     'imports': {'excutils': 'oslo_utils.excutils', 'contextlib': 'contextlib'}}]}
 
 
 class Tr:
@@ -186,6 +202,7 @@ def coq_bool(b): return 'true' if b else 'false'
 
 
 def generate():
+    failclosed.check_all(FAILCLOSED['generate'])
     repo_import('oslo_utils.excutils')
     tree = repo_ast('oslo_utils/excutils.py')
     S = 'save_and_reraise_exception'
